@@ -597,6 +597,9 @@ def check_plate_transfer(src, dst, quantity, result, exc, op):
     else:
         form, pairs, legal = 'illegal', [], False
     M.count('WELLWISE.transfer')
+    if 'Recipe.bake' in M.opstack:
+        M.count('WELLWISE.recipe_step')
+        M.bucket('C07/recipe/transfer')
     geom = ('same_plate' if same_plate else 'two_objects')
     src_idx = [ij for ij, _ in swells] if sk == 'S' else []
     dst_idx = [ij for ij, _ in dwells] if dk == 'S' else []
